@@ -15,6 +15,7 @@ import LyModel.LyHt.Drv
 import LyModel.Sib.Drv
 import LyModel.Diff.Drv
 import LyModel.Ctx.Drv
+import LyModel.Merge.Drv
 /-! Dispatch table of the line-protocol driver: one handler per component. -/
 namespace LyModel.Drv
 
@@ -37,6 +38,7 @@ def dispatch (comp op : String) (args : List String) : String :=
   | "sib" => Sib.Drv.handle op args
   | "diff" => Diff.Drv.handle op args
   | "ctx" => Ctx.Drv.handle op args
+  | "merge" => Merge.Drv.handle op args
   | _ => "err NoSuchComponent"
 
 end LyModel.Drv
